@@ -125,8 +125,8 @@ PROPS["C01"] = {
     "level_note": "sampled programs, domains and executions; executions are finite prefixes (budgeted); arrays/regions covered by C14/C15 engines",
     "rule": "a case is (program, domain, domain parameters, fixpoint parameters, initial value); non-trivial = the program has a loop or a branch and at least one membership check was made against a non-top, non-bottom invariant; distinct = hash of program text + configuration",
     "jobs": {
-        "quick": [{"name": "fwd-core", "bin": "crabv", "engine": "fwd", "cases": 4000, "params": {"dom": "core"}},
-                  {"name": "fwd-all", "bin": "crabv", "engine": "fwd", "cases": 2200, "params": {"dom": "any"}}],
+        "quick": [{"name": "fwd-core", "bin": "crabv", "engine": "fwd", "cases": 8000, "params": {"dom": "core"}},
+                  {"name": "fwd-all", "bin": "crabv", "engine": "fwd", "cases": 6000, "params": {"dom": "any"}}],
         "thorough": [{"name": "fwd-core", "bin": "crabv", "engine": "fwd", "cases": 60000, "params": {"dom": "core"}},
                      {"name": "fwd-all", "bin": "crabv", "engine": "fwd", "cases": 90000, "params": {"dom": "any"}}],
     },
@@ -329,7 +329,7 @@ PROPS["C14"] = {
     "level_note": "uniform element size 4 (the documented word-level assumption); reads of never-written cells are out of model and cut; arrays are not function parameters here",
     "rule": "a case is (array program, array domain, parameters); non-trivial = a loop or branch and at least one membership check against a non-top invariant; distinct = hash of program + configuration",
     "jobs": {
-        "quick": [{"name": "arrays", "bin": "crabv", "engine": "fwd", "cases": 3000, "params": {"dom": "arrays", "focus": "arrays"}, "shards": 64}],
+        "quick": [{"name": "arrays", "bin": "crabv", "engine": "fwd", "cases": 5000, "params": {"dom": "arrays", "focus": "arrays"}, "shards": 128}],
         "thorough": [{"name": "arrays", "bin": "crabv", "engine": "fwd", "cases": 250000, "params": {"dom": "arrays", "focus": "arrays"}, "shards": 2048}],
     },
     "floor": {"quick": 1500, "thorough": 100000},
@@ -394,7 +394,7 @@ PROPS["C15"] = {
     "level_note": "reads of never-written cells and dereferences of dangling references are out of model (cut); null dereference stops the execution; int_to_ref (forged addresses), references stored inside regions and tags (get_tags needs tagging intrinsics) are not generated",
     "rule": "a case is (region program, region domain, parameters); non-trivial as for C01; distinct = hash of program + configuration",
     "jobs": {
-        "quick": [{"name": "regions", "bin": "crabv", "engine": "fwd", "cases": 4000, "params": {"dom": "regions", "focus": "regions"}, "shards": 64}],
+        "quick": [{"name": "regions", "bin": "crabv", "engine": "fwd", "cases": 12000, "params": {"dom": "regions", "focus": "regions"}, "shards": 128}],
         "thorough": [{"name": "regions", "bin": "crabv", "engine": "fwd", "cases": 250000, "params": {"dom": "regions", "focus": "regions"}, "shards": 2048}],
     },
     "floor": {"quick": 1500, "thorough": 100000},
